@@ -31,12 +31,18 @@ Definition case19 : Type :=
    * (ring * list N)               (* base: ring, observed owner of every probe *)
    * list (ring * list N)          (* same node set built again / listed in another order *)
    * list (N * ring * list N)      (* one node removed: its label id, ring, observed owners *)
-   * (bool * bool))%type.          (* harness's own flags for the base ring: some point occurs
-                                      twice; some point belongs to two different labels *)
+   * (bool * bool * bool))%type.   (* harness's own flags for the base ring: some point occurs
+                                      twice; some point belongs to two different labels; and
+                                      whether hs contains every point of the base ring (only then
+                                      "every label owns a probe" is expected) *)
 
 (* ---- model side ---- *)
 Definition obs_of (o : option N) : N := match o with Some l => l | None => none_id end.
 Definition model_owners (r : ring) (hs : list N) : list N := map obs_of (lookup_all r hs).
+(* the same with the ascending test of [lookup_all] done once per case ([asc] = ascending hs);
+   Check19Proofs.model_owners_asc_eq: both are [map (fun h => obs_of (lookup r h)) hs] *)
+Definition model_owners_asc (asc : bool) (r : ring) (hs : list N) : list N :=
+  if asc then map obs_of (map (wrap0 r) (sweep r hs)) else map obs_of (map (lookup r) hs).
 
 Fixpoint sortedb (r : ring) : bool :=
   match r with
@@ -71,9 +77,13 @@ Definition points_of (r : ring) (l : N) : list N :=
   dedup_adj (map fst (filter (fun e => snd e =? l) r)).
 
 Definition label_ids : list N := map N.of_nat (seq 0 63).
-(* pts is a function of the label alone: every label other than [skip] has the same points in both rings *)
+Definition ring_minus (x : N) (r : ring) : ring := filter (fun e => negb (snd e =? x)) r.
+Definition ring_eqb : ring -> ring -> bool := list_eqb pairN_eqb.
+(* pts is a function of the label alone: every label other than [skip] has the same points in both
+   rings.  (First test: r' is literally r without skip's entries, which implies the second.) *)
 Definition same_pts (skip : N) (r r' : ring) : bool :=
-  forallb (fun l => (l =? skip) || listN_eqb (points_of r l) (points_of r' l)) label_ids.
+  if ring_eqb (ring_minus skip r) r' then true   (* [if], not [||]: vm_compute is strict *)
+  else forallb (fun l => (l =? skip) || listN_eqb (points_of r l) (points_of r' l)) label_ids.
 
 (* ---- the property, on the observation ---- *)
 Fixpoint unchanged_unless (x : N) (before after : list N) : bool :=
@@ -90,15 +100,16 @@ Definition every_label_owns (r : ring) (owners : list N) : bool :=
   N.land present (mask_of owners) =? present.
 
 Definition check19 (c : case19) : N :=
-  let '(hs, (r0, o0), again, rems, (fdup, fcoll)) := c in
+  let '(hs, (r0, o0), again, rems, (fdup, fcoll, full)) := c in
   let o_same := forallb (fun p => listN_eqb (snd p) o0) again in
   let o_rem := forallb (fun t => let '(x, _, o) := t in unchanged_unless x o0 o) rems in
-  let o_arc := every_label_owns r0 o0 in
+  let o_arc := if full then every_label_owns r0 o0 else true in
   let o_len := (length o0 =? length hs)%nat in
   let oracle := o_same && o_rem && o_arc && o_len in
-  let agree_base := listN_eqb o0 (model_owners r0 hs) in
-  let agree_again := forallb (fun p => listN_eqb (snd p) (model_owners (fst p) hs)) again in
-  let agree_rem := forallb (fun t => let '(_, r, o) := t in listN_eqb o (model_owners r hs)) rems in
+  let asc := ascending hs in
+  let agree_base := listN_eqb o0 (model_owners_asc asc r0 hs) in
+  let agree_again := forallb (fun p => listN_eqb (snd p) (model_owners_asc asc (fst p) hs)) again in
+  let agree_rem := forallb (fun t => let '(_, r, o) := t in listN_eqb o (model_owners_asc asc r hs)) rems in
   let owners_agree := agree_base && agree_again && agree_rem in
   let rings_ok :=
     sortedb r0
@@ -132,24 +143,26 @@ Definition dec_ring (a : array int) : ring := map dec_entry (arr_list a).
 Definition dec_ns (a : array int) : list N := map N_of (arr_list a).
 
 (* owners: ten 6-bit ids per integer, first id in the low bits; [n] ids in all *)
+(* table 0..63 as N, so that a 6-bit field is decoded by one array access *)
+Definition tbl6 : array N := Eval vm_compute in
+  fst (fold_left (fun st v => let '(a, i) := st in (PArray.set a i v, Uint63.add i 1%uint63))
+                 (map N.of_nat (seq 0 64)) (PArray.make 64%uint63 0, 0%uint63)).
 Fixpoint unpack6 (k : nat) (i : int) : list N :=
   match k with
   | O => []
-  | S k' => N_of (Uint63.land i 63%uint63) :: unpack6 k' (Uint63.lsr i 6%uint63)
+  | S k' => PArray.get tbl6 (Uint63.land i 63%uint63) :: unpack6 k' (Uint63.lsr i 6%uint63)
   end.
 Definition dec_owners (n : N) (a : array int) : list N :=
   firstn (N.to_nat n) (flat_map (unpack6 10) (arr_list a)).
 
 (* a removal ring is written [None] when the ring the code built is, entry for entry, the base
    ring without the entries of the removed label (the harness compared them) *)
-Definition ring_minus (x : N) (r : ring) : ring := filter (fun e => negb (snd e =? x)) r.
-
 Definition case19_raw : Type :=
   (array int                                   (* hs *)
    * (array int * array int)                   (* base ring, base owners *)
    * list (array int * array int)              (* again: ring, owners *)
    * list (int * option (array int) * array int)   (* removals: label id, ring, owners *)
-   * (bool * bool))%type.
+   * (bool * bool * bool))%type.
 
 Definition decode19 (c : case19_raw) : case19 :=
   let '(hs, (r0, o0), again, rems, flags) := c in
